@@ -63,7 +63,8 @@ def _env(ip, frame, extra):
         f = f.parent
     for f in reversed(chain):
         env.update(f.locals)
-    env.update({'S': S, 'ghost': NS(ip.state.ghost), 'old': ip.entry_old})
+    from .envb import Env
+    env.update({'S': S, 'ghost': NS(ip.state.ghost), 'old': ip.entry_old, 'E': Env(ip)})
     env.update(ip.ctx.skolems)
     env.update(extra)
     return env
@@ -139,6 +140,12 @@ def havoc(ip, node, frame, spec):
         if p.startswith('ghost.'):
             g = p[6:]
             ip.state.ghost[g] = fresh_like(ip, ip.state.ghost[g], 'g_' + g, spec.havoc_kinds.get(p))
+        elif p.startswith('field:'):
+            cn, a = p[6:].rsplit('.', 1)
+            arr, kind = ip.state.fields[(cn, a)]
+            ip.state.fields[(cn, a)] = (ip.ctx.fresh('fld_%s_%s' % (cn, a), arr.sort()), kind)
+            if (cn, a) in ip.state.field_len:
+                ip.state.field_len[(cn, a)] = ip.ctx.fresh('fldlen_%s_%s' % (cn, a), ip.state.field_len[(cn, a)].sort())
         else:
             havoc_path(ip, roots, p, spec.havoc_kinds)
 
@@ -153,6 +160,10 @@ def _allowed(ip, frame, spec, node=None):
                 allowed.add((id(cur), '*'))
     for p in spec.havoc:
         if p.startswith('ghost.'):
+            continue
+        if p.startswith('field:'):
+            cn, a = p[6:].rsplit('.', 1)
+            allowed.add((('field', cn), a))
             continue
         loc = resolve(ip, roots, p)
         if loc is None:
@@ -191,6 +202,8 @@ def _label(node):
 def while_with_invariant(ip, node, frame, spec):
     _label(node)
     extra = {}
+    if spec.ghost_init is not None:
+        spec.ghost_init(ip, frame, _env(ip, frame, extra))
     check_inv(ip, spec, frame, extra, 'init', node)
     havoc(ip, node, frame, spec)
     assume_inv(ip, spec, frame, extra)
